@@ -34,6 +34,12 @@ def p1(led, rid, ctx):
             root = f.parent or f.defn
             logs = [x.bb for x in f.calls if x.name in ("log_inference", "add_propagation")]
             cfg = f.cfg
+            # a path on which the proof does not log inferences at all has nothing to log
+            for bb in cfg.edges:
+                for fa in edge_facts(f, bb):
+                    a = peel(fa.atom, calls=None) if fa.kind == "bool" else None
+                    if a is not None and a.k == "call" and a.a.name == "is_logging_inferences" and fa.val is False:
+                        logs.append(fa.edge.node)
             # every path from the reason computation to a return passes a logging call
             bad = cfg.reaches(c.bb, cfg.returns, avoid=logs, strict=True) if cfg.returns else False
             led.check(not bad and bool(logs), rid, "%s:reason-logged" % root.rsplit("::", 1)[-1], c.span,
